@@ -6,8 +6,8 @@
               ok / missing / self / mutual / syntaxerror / emptyfile / nomain-ok / malformed paths / remote / duplicate / after-code *)
 EXTENDS Integers, Sequences, TLC, Json
 CONSTANTS Mode, N, L
-InsTok == {";", "{", "}", "(", ")", ",", "let", "fn", "=", "\"", "1", "::", "&'", "!", "catch", "match", "=>"}
-Classes == {"a", "1", " ", "nl", "\"", "'", "/", "*", "{", "@", "hi", "-", ".", "0x"}
+InsTok == {";", "{", "}", "(", ")", ",", "let", "fn", "=", "\"", "1", "::", "&'", "!", "catch", "match", "=>", "bs", "'", "bsnl"}
+Classes == {"a", "1", " ", "nl", "\"", "'", "/", "*", "{", "@", "hi", "-", ".", "0x", "bs", "tab", "cr"}
 ImportKinds == {"none", "ok", "missing", "self", "mutual", "syntaxerr", "emptyfile", "empty_path", "dotdot", "absolute",
                 "remote", "dup", "aftercode", "dir", "uppercase_std", "trailing_slash"}
 VARIABLE c
